@@ -36,7 +36,8 @@ def _is_pure(e):
             if isinstance(f, ast.Attribute) and isinstance(f.value, ast.Attribute) and txt(f.value) in ("np.linalg", "os.path", "scipy.special", "np.random"):
                 continue
             if isinstance(f, ast.Attribute) and f.attr in ("get", "keys", "values", "items", "index", "copy", "format", "join", "lower", "upper", "strip", "split", "startswith",
-                                                             "endswith", "reshape", "flatten", "astype", "count", "replace"):
+                                                             "endswith", "reshape", "flatten", "astype", "count", "replace", "dot", "tolist", "sum", "mean", "transpose", "ravel", "squeeze",
+                                                             "diagonal", "take", "any", "all", "min", "max", "conj", "isidentifier", "isdigit", "rstrip", "lstrip", "find", "encode", "decode"):
                 continue
             return False
         if isinstance(x, (ast.Yield, ast.YieldFrom, ast.Await, ast.NamedExpr)):
@@ -564,15 +565,17 @@ class Canon:
         return T().visit(node)
 
     # -------------------------------------------------------------------------------------------------------- entry points
-    def fn(self, f):
-        k = id(f)
+    def fn(self, f, inline=True):
+        """inline=False: private helpers stay calls (everything else is normalised the same way)"""
+        k = id(f) if inline else ("noinline", id(f))
         if k in self._cache:
             return self._cache[k]
         node = copy.deepcopy(f.node)
         node.decorator_list = []
         self._k = {}
         body = _strip_doc(node.body)
-        body = self._inline_block(f, body)
+        if inline:
+            body = self._inline_block(f, body)
         body = _Blocks().block(body, "func")
         node.body = body
         node = _DefToLambda().visit(node)
